@@ -1,1 +1,137 @@
 import Goflow.Pipe
+/-!
+  C06 — Templates are scoped per exporter, version, domain and id; latest wins.
+  The store of one exporter refines an abstract map keyed by (version, domain, id); the pipe keeps
+  one store per exporter (UDP source address and port).
+-/
+namespace Goflow.C06
+open Goflow Goflow.Netflow
+
+/-- the key is injective on (uint16, uint32, uint16) -/
+theorem templateKey_injective (v d i v' d' i' : Nat)
+    (hi : i < 2 ^ 16) (hi' : i' < 2 ^ 16) (hd : d < 2 ^ 32) (hd' : d' < 2 ^ 32)
+    (h : templateKey v d i = templateKey v' d' i') : v = v' ∧ d = d' ∧ i = i' := by
+  unfold templateKey at h
+  simp only [Nat.reducePow] at *
+  omega
+
+/-- abstraction of a store: the partial map it represents -/
+def abs (s : Store) : Nat → Option Template := fun k => s.get k
+
+private theorem lookup_filter_ne (s : Store) (k k' : Nat) (h : k' ≠ k) :
+    List.lookup k' (s.filter (fun e => e.1 != k)) = List.lookup k' s := by
+  induction s with
+  | nil => rfl
+  | cons e s ih =>
+    obtain ⟨a, t⟩ := e
+    by_cases hak : a = k
+    · subst hak
+      have h1 : ((a, t).1 != a) = false := by simp
+      have h2 : (k' == a) = false := by simpa using h
+      simp [List.filter, h1, List.lookup, h2, ih]
+    · have h1 : ((a, t).1 != k) = true := by simpa using hak
+      simp only [List.filter, h1, List.lookup]
+      split <;> simp_all
+
+/-- AddTemplate is map update: the new template is found under its key, every other key is untouched -/
+theorem store_refines (s : Store) (k : Nat) (t : Template) (k' : Nat) :
+    (s.add k t).get k' = if k' = k then some t else s.get k' := by
+  unfold Store.add Store.get
+  by_cases h : k' = k
+  · subst h; simp [List.lookup]
+  · have h2 : (k' == k) = false := by simpa using h
+    simp only [List.lookup, h2, h, if_false]
+    exact lookup_filter_ne s k k' h
+
+/-- latest wins: re-announcing a template replaces the old one -/
+theorem latest_wins (s : Store) (k : Nat) (t t' : Template) :
+    ((s.add k t).add k t').get k = some t' := by
+  rw [store_refines]; simp
+
+/-- isolation inside one exporter: adding under (v,d,i) leaves every other (v',d',i') unchanged -/
+theorem isolation (s : Store) (v d i v' d' i' : Nat) (t : Template)
+    (hi : i < 2 ^ 16) (hi' : i' < 2 ^ 16) (hd : d < 2 ^ 32) (hd' : d' < 2 ^ 32)
+    (hne : ¬ (v = v' ∧ d = d' ∧ i = i')) :
+    (s.add (templateKey v d i) t).get (templateKey v' d' i') = s.get (templateKey v' d' i') := by
+  rw [store_refines]
+  have : templateKey v' d' i' ≠ templateKey v d i := by
+    intro h
+    exact hne (by
+      have := templateKey_injective v' d' i' v d i hi' hi hd' hd h
+      exact ⟨this.1.symm, this.2.1.symm, this.2.2.symm⟩)
+  simp [this]
+
+/-- addTemplates (the loop over the records of a template set) is a fold of map updates:
+    a key that no record of the set announces keeps its template -/
+theorem addTemplates_other (version dom : Nat) (s : Store) (recs : List (Nat × Template)) (k : Nat)
+    (h : ∀ r ∈ recs, templateKey version dom r.1 ≠ k) :
+    (addTemplates version dom s recs).get k = s.get k := by
+  induction recs generalizing s with
+  | nil => rfl
+  | cons r rs ih =>
+    obtain ⟨tid, t⟩ := r
+    simp only [addTemplates]
+    rw [ih _ (fun r hr => h r (by simp [hr]))]
+    rw [store_refines]
+    have := h (tid, t) (by simp)
+    simp [Ne.symm this]
+
+/-- a data set whose template is not in the store is reported as template-not-found, yields a raw
+    flow set (no records), leaves the store unchanged and consumes exactly its declared length, so
+    the sets that follow (and the templates they announce) are still processed -/
+theorem unknown_template (fuel version dom id len : Nat) (s : Store) (b rest : Bytes)
+    (hid : 256 ≤ id) (hlen : 4 ≤ len)
+    (hb : readFields [2, 2] b = .ok ([id, len], rest))
+    (hnone : s.get (templateKey version dom id) = none) :
+    ∃ o, decodeFlowSet fuel version dom s b = .ok o ∧ o.tnf = true ∧ o.store = s ∧
+      o.flowSet = .raw id len (rest.take (len - 4)) ∧ o.rest = rest.drop (len - 4) := by
+  unfold decodeFlowSet
+  rw [hb]
+  have h1 : ¬ len < 4 := by omega
+  have h2 : ¬ (id = 0 ∧ version = 9 ∨ id = 2 ∧ version = 10) := by omega
+  have h3 : ¬ (id = 1 ∧ version = 9) := by omega
+  have h4 : ¬ (id = 3 ∧ version = 10) := by omega
+  simp only [h1, h2, h3, h4, if_false, hid, ge_iff_le, if_true, hnone, nextN]
+  exact ⟨_, rfl, rfl, rfl, rfl, rfl⟩
+
+/-- the pipe keeps one store per exporter: processing a datagram of exporter `e` does not change
+    the store of any other exporter `e'` (whatever the datagram contains) -/
+theorem exporter_isolation (cfg : Producer.Config) (st : Pipe.State) (e e' : Pipe.Src) (recv : Nat) (d : Bytes)
+    (hne : e' ≠ e) :
+    (Pipe.netflowPipe cfg st e recv d).state.templatesOf e' = st.templatesOf e' := by
+  have key : ∀ (s : Pipe.State) (t : Store), (s.setTemplates e t).templatesOf e' = s.templatesOf e' := by
+    intro s t
+    unfold Pipe.State.setTemplates Pipe.State.templatesOf
+    have h2 : (e' == e) = false := by simpa using hne
+    simp only [List.lookup, h2]
+    congr 1
+    induction s.templates with
+    | nil => rfl
+    | cons x xs ih =>
+      obtain ⟨a, t0⟩ := x
+      by_cases hak : a = e
+      · subst hak
+        have h1 : ((a, t0).1 != a) = false := by simp
+        simp [List.filter, h1, List.lookup, h2, ih]
+      · have h1 : ((a, t0).1 != e) = true := by simpa using hak
+        simp only [List.filter, h1, List.lookup]
+        split <;> simp_all
+  have key2 : ∀ (s : Pipe.State) (ip : Bytes) (r : Producer.Rates), (s.setRates ip r).templatesOf e' = s.templatesOf e' := by
+    intro s ip r; rfl
+  unfold Pipe.netflowPipe
+  simp only
+  split
+  · simp [key]
+  · split
+    · split <;> simp [key]
+    · split
+      · split
+        · simp [key]
+        · split <;> simp [key, key2]
+      · simp [key]
+
+/-- non-vacuity: concrete keys of two versions / domains / ids are all different -/
+example : templateKey 9 1 256 ≠ templateKey 10 1 256 ∧ templateKey 9 1 256 ≠ templateKey 9 2 256 ∧
+    templateKey 9 1 256 ≠ templateKey 9 1 257 := by decide
+
+end Goflow.C06
